@@ -90,7 +90,7 @@ def _params(fn):
     """(positional parameter names, keyword-only names incl. the *args name, which is bound to a tuple display of the
     surplus positional actuals)"""
     a = fn.args
-    return [x.arg for x in a.posonlyargs + a.args], [x.arg for x in a.kwonlyargs] + ([a.vararg.arg] if a.vararg else [])
+    return [x.arg for x in a.posonlyargs + a.args], [x.arg for x in a.kwonlyargs] + ([a.vararg.arg] if a.vararg else []) + ([a.kwarg.arg] if a.kwarg else [])
 
 
 def _func_locals(fn):
@@ -171,6 +171,14 @@ class _Rename(ast.NodeTransformer):
             else:
                 args.append(a)
         n.args = args
+        # f(**{'a': x, 'b': y}) is f(a=x, b=y)
+        kws = []
+        for k in n.keywords:
+            if k.arg is None and isinstance(k.value, ast.Dict) and all(isinstance(kk, ast.Constant) and isinstance(kk.value, str) and kk.value.isidentifier() for kk in k.value.keys):
+                kws.extend(ast.keyword(arg=kk.value, value=vv) for kk, vv in zip(k.value.keys, k.value.values))
+            else:
+                kws.append(k)
+        n.keywords = kws
         return n
 
     def visit_JoinedStr(self, n):
@@ -202,7 +210,7 @@ def _body_of(fn):
 
 def _straight_line(fn):
     """(statements, return expr | None) if the helper is a straight line of plain statements, else None"""
-    if isinstance(fn, ast.AsyncFunctionDef) or fn.decorator_list or fn.args.kwarg:
+    if isinstance(fn, ast.AsyncFunctionDef) or fn.decorator_list:
         return None
     body = _body_of(fn)
     if not body:
@@ -277,7 +285,7 @@ def _structured(fn):
     sl = _straight_line(fn)
     if sl is not None:
         return sl
-    if isinstance(fn, ast.AsyncFunctionDef) or fn.decorator_list or fn.args.kwarg:
+    if isinstance(fn, ast.AsyncFunctionDef) or fn.decorator_list:
         return None
     body = _body_of(fn)
     if not body:
@@ -329,10 +337,21 @@ def _bind(fn, call, is_method, caller_locals):
         m[fn.args.vararg.arg] = ast.Tuple(elts=[], ctx=ast.Load())
     for p, a in zip(pos, call.args):
         m[p] = a
+    surplus = []
+    special = {x.arg for x in (fn.args.vararg, fn.args.kwarg) if x is not None}
     for k in call.keywords:
-        if k.arg in m or k.arg not in pos + kwo or (fn.args.vararg and k.arg == fn.args.vararg.arg):
+        if k.arg in m:
             return None
+        if k.arg not in pos + kwo or k.arg in special:
+            if not fn.args.kwarg:
+                return None
+            surplus.append(k)
+            continue
         m[k.arg] = k.value
+    if fn.args.kwarg:
+        # **kw of the helper: a dict display of the surplus keyword actuals -- only usable where the helper merely hands it on
+        # (`f(**kw)`), which the caller of _bind checks
+        m[fn.args.kwarg.arg] = ast.Dict(keys=[ast.Constant(value=k.arg) for k in surplus], values=[k.value for k in surplus])
     a = fn.args
     allpos = a.posonlyargs + a.args
     dflt = {}
@@ -366,6 +385,16 @@ def _expand(fn, call, is_method, caller_locals, want_value, tag=None):
         return None
     pos, kwo = _params(fn)
     params = set(pos + kwo)
+    if fn.args.kwarg:
+        kwn = fn.args.kwarg.arg
+        uses_ = [x for st_ in body + ([ret] if ret is not None else []) for x in ast.walk(st_) if isinstance(x, ast.Name) and x.id == kwn]
+        splats_ = [k_.value for st_ in body + ([ret] if ret is not None else []) for x in ast.walk(st_) if isinstance(x, ast.Call) for k_ in x.keywords if k_.arg is None]
+        if len(uses_) != 1 or not any(u_ is s_ for u_ in uses_ for s_ in splats_):
+            return None          # the mapping is inspected or used twice: not read through
+        dct = m[kwn]
+        if not all(isinstance(v_, _PLAIN) for v_ in dct.values):
+            # the surplus actuals are evaluated at the call, before the body: keep that order with temporaries
+            return None
     stored = _stored_names(body)
     loaded = {x.id for st in body + ([ret] if ret is not None else []) for x in ast.walk(st) if isinstance(x, ast.Name) and isinstance(x.ctx, ast.Load)}
     free = loaded - params - stored
@@ -386,7 +415,9 @@ def _expand(fn, call, is_method, caller_locals, want_value, tag=None):
         if a is None:
             return None
         uses = sum(1 for st in body + ([ret] if ret is not None else []) for x in ast.walk(st) if isinstance(x, ast.Name) and x.id == p and isinstance(x.ctx, ast.Load))
-        if isinstance(a, _PLAIN) and p not in stored and not (isinstance(a, ast.Name) and a.id in stored):
+        container = (fn.args.vararg is not None and p == fn.args.vararg.arg and isinstance(a, ast.Tuple) and all(isinstance(e_, _PLAIN) for e_ in a.elts)) or \
+            (fn.args.kwarg is not None and p == fn.args.kwarg.arg and isinstance(a, ast.Dict) and all(isinstance(e_, _PLAIN) for e_ in a.values))
+        if (isinstance(a, _PLAIN) or container) and p not in stored and not (isinstance(a, ast.Name) and a.id in stored):
             subst[p] = a
         elif uses == 0 and _is_plain_read(a) and p not in stored:
             continue
@@ -547,7 +578,11 @@ def inline_new_helpers(tree, modname, other_sources=""):
     if not known:
         return []
     table = qualnames(tree, modname)
-    new = {q: fn for q, fn in table.items() if q not in known}
+    # a function that carries the name of a known function of this module (leading underscores aside) is that function moved to
+    # another scope -- a closure turned into a method, a method into a module-level function -- and keeps the role the rules
+    # know it by: it is not read through
+    known_simple = {q.rsplit(".", 1)[1].lstrip("_") for q in known if q.startswith(modname + ".")}
+    new = {q: fn for q, fn in table.items() if q not in known and q.rsplit(".", 1)[1].lstrip("_") not in known_simple}
     if not new:
         return []
     _MODULE_DEFS.clear()
